@@ -350,8 +350,10 @@ func (p *parser) symbolOrKeyword(tok symTok, start int, c ctx) model.Value {
 		// followed by a stop character, an operator (in sexp), ':' or a comment.
 		return model.SymV(tok.sym)
 	}
-	if isOperator(p.peek()) && p.peek() != '.' {
+	comment := p.peek() == '/' && (p.peekAt(1) == '/' || p.peekAt(1) == '*')
+	if isOperator(p.peek()) && p.peek() != '.' && !comment {
 		// true+ / nan+inf / null-1: whether a keyword needs a stop character is undecided
+		// (a comment ends a keyword as it ends an identifier: null/**/.int is three values)
 		p.fail(Unsupported, p.pos, "operator character directly after a keyword")
 	}
 	switch tok.sym.Text {
@@ -388,7 +390,9 @@ func (p *parser) symbolOrKeyword(tok symTok, start int, c ctx) model.Value {
 // needStopKeyword is needStop for null / null.type / true / false / nan, where
 // it is undecided whether an operator character may follow directly.
 func (p *parser) needStopKeyword(start int, c ctx) {
-	if ch := p.peek(); isOperator(ch) && !(ch == '/' && (p.peekAt(1) == '/' || p.peekAt(1) == '*')) {
+	if ch := p.peek(); ch == '/' && (p.peekAt(1) == '/' || p.peekAt(1) == '*') {
+		return
+	} else if isOperator(ch) {
 		p.fail(Unsupported, p.pos, "operator character directly after a keyword")
 	}
 	p.needStop(start, c)
